@@ -51,3 +51,7 @@ package header
 
 //@ func (Flags) Masked
 //@   inline
+
+//@ func TimestampFromTime
+//@   trusted
+//@   pure
